@@ -1,0 +1,43 @@
+//go:build verif
+
+// Contracts for deductive verification (comment-only; compiled only with -tags verif).
+package client
+
+// ---- C10 (a request that is not safe to repeat is sent at most once): the default retry predicate says yes only
+// for a request whose body can be sent again (not a stream) and whose method is one of GET, HEAD, PUT, DELETE,
+// OPTIONS, TRACE - the answer true is always backed by one of those six method tests having answered true.
+// reqIdempotent: the request is safe to repeat. What "safe to repeat" means is not definable in the contracts; the
+// link is the one assumed postcondition below: when the default policy answers true the request is safe to repeat.
+// Checked against the body is what backs that answer: the stream test and one of the six method tests.
+//@ ghost var reqIdempotent bool
+//@ ghost var riStream bool
+//@ ghost var riIdem bool
+//@ ghost var idAny bool
+//@ func DefaultRetryIf(req, resp, err) r
+//@   props C10
+//@   abstract
+//@   noinline
+//@   modifies riStream, riIdem, idAny
+//@   ghostset-at-entry riStream = true
+//@   ghostset-at-entry riIdem = false
+//@   ghostset after Request.IsBodyStream: riStream = result
+//@   ghostset after isIdempotent: riIdem = result
+//@   assert before Request.IsBodyStream: arg0 == req
+//@   assert before isIdempotent: arg0 == req
+//@   top-ensures r ==> !riStream && riIdem
+//@   assumed-ensures r ==> reqIdempotent
+
+//@ func isIdempotent(req, resp, err) r
+//@   props C10
+//@   abstract
+//@   noinline
+//@   modifies idAny
+//@   ghostset-at-entry idAny = false
+//@   ghostset after RequestHeader.IsGet: idAny = idAny || result
+//@   ghostset after RequestHeader.IsHead: idAny = idAny || result
+//@   ghostset after RequestHeader.IsPut: idAny = idAny || result
+//@   ghostset after RequestHeader.IsDelete: idAny = idAny || result
+//@   ghostset after RequestHeader.IsOptions: idAny = idAny || result
+//@   ghostset after RequestHeader.IsTrace: idAny = idAny || result
+//@   assert before RequestHeader.IsGet: arg0 == &req.Header
+//@   top-ensures r ==> idAny
